@@ -25,6 +25,7 @@ type refContract struct {
 	savedAt          map[int]int64 // node -> time it became awaiting there (by propose or gossip)
 	removed          map[int]bool
 	mayBeSealed      bool // a valid confirm or a receiver-signed reject was issued for it
+	spoiled          bool // sealed through the subject/data boundary attack (known finding): no longer judged
 	issuer, receiver int
 }
 
@@ -134,6 +135,9 @@ func notaryScenario(w *World, p *Plan, rec *Record) {
 			var c []*refContract
 			for _, h := range ref.order {
 				rc := ref.contracts[h]
+				if rc.spoiled {
+					continue
+				}
 				if onNode {
 					if _, ok := rc.savedAt[n.Idx]; !ok || rc.removed[n.Idx] {
 						continue
@@ -297,9 +301,39 @@ func notaryScenario(w *World, p *Plan, rec *Record) {
 				if err != nil {
 					continue
 				}
-				variant := []string{"signature-by-other-key", "altered-amount", "altered-receiver"}[r.Intn(3)]
+				variant := []string{"signature-by-other-key", "altered-amount", "altered-receiver", "contract-reframed-as-transfer"}[r.Intn(4)]
+				var reframed *refContract
+				if variant == "contract-reframed-as-transfer" {
+					// a bystander re-sends an awaiting contract that also moves spice with its data bytes appended to
+					// the subject: hash and issuer signature still verify (C04's known boundary weakness), and the
+					// notary takes a transaction without data for a pure transfer
+					for _, h := range ref.order {
+						rc := ref.contracts[h]
+						if _, on := rc.savedAt[n.Idx]; on && !rc.removed[n.Idx] && !rc.mayBeSealed && !rc.spoiled && (rc.trx.Spice.Currency != 0 || rc.trx.Spice.SupplementaryCurrency != 0) {
+							reframed = rc
+						}
+					}
+					if reframed == nil {
+						variant = "altered-amount"
+					}
+				}
 				desc += ":" + variant
 				switch variant {
+				case "contract-reframed-as-transfer":
+					t = reframed.trx
+					t.Subject, t.Data = t.Subject+string(t.Data), nil
+					pt, _ := protoOf(&t)
+					_, err, ok := call(n, name, func(ctx context.Context) (any, error) { return n.Notary.Propose(ctx, pt) })
+					if ok {
+						w.fault("dishonest-client:" + kind)
+						w.probe("c16-contract-reframed-as-transfer-offered")
+						if err == nil {
+							reframed.spoiled, reframed.mayBeSealed = true, true
+							ref.transfers[t.Hash] = true
+							w.violate("C16", "sealed", "contract-sealed-without-receiver:subject-data-boundary", n.Idx, "contract %s with spice %v sealed by a bystander's Propose", hx(t.Hash), t.Spice)
+						}
+					}
+					continue
 				case "signature-by-other-key":
 					_, t.IssuerSignature = w.adversary().Sign(t.GetMessage())
 				case "altered-amount":
